@@ -381,39 +381,52 @@ def recursion_exponent_rule(ck, ix, qual):
     defs = defs_of(fi)
     pnames = [a.arg for a in fi.node.args.args]
     ref_p, exp_p = pnames[1], pnames[2]
-    loops = [l for l in ast.walk(fi.node) if isinstance(l, ast.For) and norm(l.iter) == ref_p]
+    from .. import shape
+    loops = [l for l in ast.walk(fi.node) if isinstance(l, ast.For) and norm(l.iter) in (ref_p, f"{ref_p}.items()", f"{ref_p}.keys()")]
     if not loops:
         raise AnalysisError(f"{qual}: loop over the reference container not found")
     n = 0
     for l in loops:
-        key = norm(l.target)
-        comb = [a for a in ast.walk(l) if isinstance(a, ast.Assign) and isinstance(a.value, ast.BinOp) and isinstance(a.value.op, ast.Mult)
-                and {norm(a.value.left), norm(a.value.right)} == {exp_p, f"{ref_p}[{key}]"}]
-        ck.check(len(comb) == 1, "G-PROV", f"{qual}|combined-exponent-is-product", fi.loc(l), "combined exponent = outer exponent * exponent in the reference",
-                 f"no assignment `x = {exp_p} * {ref_p}[{key}]` found: the exponent of the outer unit and of the referenced unit are not multiplied")
-        if len(comb) != 1:
-            continue
-        cname = norm(comb[0].targets[0])
+        if isinstance(l.target, ast.Tuple) and len(l.target.elts) == 2:
+            key, refexps = norm(l.target.elts[0]), {norm(l.target.elts[1])}
+        else:
+            key = norm(l.target)
+            refexps = set()
+        refexps.add(f"{ref_p}[{key}]")
+
+        def is_comb(e):
+            """e is (a name for) outer exponent * exponent of this entry in the reference"""
+            r = shape.resolve(e, fi.node, depth=3)
+            return isinstance(r, ast.BinOp) and isinstance(r.op, ast.Mult) and ((norm(r.left) == exp_p and norm(r.right) in refexps) or (norm(r.right) == exp_p and norm(r.left) in refexps))
+        seen_comb = False
         for c in ast.walk(l):
             if isinstance(c, ast.Call) and call_name(c) == fi.name:
                 n += 1
-                ck.check(len(c.args) >= 2 and norm(c.args[1]) == cname, "G-PROV", f"{qual}|recursion-carries-combined-exponent", fi.loc(c),
-                         f"recursive expansion carries {cname}", f"`{norm(c)}` recurses with `{norm(c.args[1]) if len(c.args) > 1 else '?'}` instead of the combined exponent `{cname}`: exponents of derived dimensions/units are lost")
+                okc = len(c.args) >= 2 and is_comb(c.args[1])
+                seen_comb = seen_comb or okc
+                ck.check(okc, "G-PROV", f"{qual}|recursion-carries-combined-exponent", fi.loc(c),
+                         "recursive expansion carries outer exponent * exponent in the reference", f"`{norm(c)}` recurses with `{norm(c.args[1]) if len(c.args) > 1 else '?'}` instead of the combined exponent ({exp_p} * exponent of `{key}` in {ref_p}): exponents of derived dimensions/units are lost")
             if isinstance(c, ast.AugAssign) and isinstance(c.target, ast.Subscript):
                 n += 1
                 v = c.value
                 if isinstance(c.op, ast.Add):
-                    ck.check(norm(v) == cname, "G-PROV", f"{qual}|accumulates-combined-exponent", fi.loc(c), f"accumulates {cname}", f"`{norm(c)}` does not accumulate the combined exponent `{cname}`")
+                    okc = is_comb(v)
+                    seen_comb = seen_comb or okc
+                    ck.check(okc, "G-PROV", f"{qual}|accumulates-combined-exponent", fi.loc(c), "accumulates the combined exponent", f"`{norm(c)}` does not accumulate the combined exponent ({exp_p} * exponent in {ref_p})")
                 elif isinstance(c.op, ast.Mult):
-                    ok = isinstance(v, ast.BinOp) and isinstance(v.op, ast.Pow) and norm(v.right) == cname and norm(v.left).endswith("converter.scale")
-                    ck.check(ok, "G-PROV", f"{qual}|scale-raised-to-combined-exponent", fi.loc(c), f"scale ** {cname} multiplied in", f"`{norm(c)}` does not multiply by converter.scale ** {cname}")
+                    ok = isinstance(v, ast.BinOp) and isinstance(v.op, ast.Pow) and is_comb(v.right) and "converter.scale" in shape.rnorm(v.left, fi.node)
+                    seen_comb = seen_comb or ok
+                    ck.check(ok, "G-PROV", f"{qual}|scale-raised-to-combined-exponent", fi.loc(c), "scale ** combined exponent multiplied in", f"`{norm(c)}` does not multiply by converter.scale ** (combined exponent)")
+        ck.check(seen_comb, "G-PROV", f"{qual}|combined-exponent-is-product", fi.loc(l), "combined exponent = outer exponent * exponent in the reference",
+                 f"no use of `{exp_p} * <exponent of {key} in {ref_p}>` found: the exponent of the outer unit and of the referenced unit are not multiplied")
     ck.floor("G-PROV", n, 2, f"recursive calls / accumulator updates in {qual}")
 
 
 def check_wrapper_order_rule(ck, ix):
     fi = ix.func("pint.registry_helpers", "check")
     for w in [f for f in fi.module.all_functions if f.name == "wrapper" and f.qualname.startswith(fi.qualname)]:
-        loops = [l for l in ast.walk(w.node) if isinstance(l, ast.For) and "sig.parameters" in norm(l.iter)]
+        from ..lib import roots_with_closure
+        loops = [l for l in ast.walk(w.node) if isinstance(l, ast.For) and "sig.parameters" in " ".join(sorted(roots_with_closure(w, l.iter) | {norm(l.iter)}))]
         ok = False
         for l in loops:
             apps = [c for c in ast.walk(l) if isinstance(c, ast.Call) and call_name(c) == "append" and c.args and "kw[" in norm(c.args[0])]
@@ -446,13 +459,25 @@ def _const_return_is_to_verdict(fi, ret: ast.Return, value: bool) -> bool:
         has_to = isinstance(tr, ast.Try) and any(isinstance(c, ast.Call) and call_name(c) in ("to", "ito", "m_as", "convert", "_convert")
                                                   for s in tr.body for c in ast.walk(s))
         return ok_type and has_to
-    if isinstance(par, ast.Try) and ret in par.body:
-        if value is not True:
-            return False
-        idx = par.body.index(ret)
-        before = par.body[:idx]
-        has_to = any(isinstance(c, ast.Call) and call_name(c) in ("to", "ito", "m_as", "convert", "_convert")
-                     for s in before for c in ast.walk(s))
-        handles = any(h.type is not None and "DimensionalityError" in norm(h.type) for h in par.handlers)
-        return has_to and handles
+    CONV = ("to", "ito", "m_as", "convert", "_convert")
+
+    def probing_try(tr):
+        return isinstance(tr, ast.Try) and any(isinstance(c, ast.Call) and call_name(c) in CONV for s in tr.body for c in ast.walk(s)) \
+            and any(h.type is not None and "DimensionalityError" in norm(h.type) for h in tr.handlers) \
+            and all(any(isinstance(x, (ast.Return, ast.Raise)) for x in h.body) for h in tr.handlers)
+    if value is not True:
+        return False
+    # `return True` as the last statement of the try body, in its else clause, or right after a try whose handlers all leave
+    if isinstance(par, ast.Try) and (ret in par.body or ret in par.orelse):
+        if ret in par.body:
+            before = par.body[:par.body.index(ret)]
+            if not any(isinstance(c, ast.Call) and call_name(c) in CONV for s in before for c in ast.walk(s)):
+                return False
+        return probing_try(par)
+    for fld in ("body", "orelse"):
+        lst = getattr(par, fld, None)
+        if isinstance(lst, list) and any(x is ret for x in lst):
+            i = [k for k, x in enumerate(lst) if x is ret][0]
+            if i > 0 and probing_try(lst[i - 1]):
+                return True
     return False
